@@ -445,7 +445,7 @@ pub fn run_one(prop: &'static str, run: u64, seed: u64) -> RunOut {
     let n_local = rng.usize_below(3);
     let n_remote = if n_local == 0 { 1 + rng.usize_below(3) } else { rng.usize_below(3) };
     let mut next_id = 0u64;
-    let cancel_pct = if c19 { 40 } else { *rng.pick(&[0u64, 0, 10]) };
+    let cancel_pct = if c19 { 40 } else { *rng.pick(&[0u64, 10, 20]) };
     let scripts: Vec<Vec<(u64, COp)>> = (0..n_local + n_remote)
         .map(|_| {
             let n = 1 + rng.usize_below(6);
